@@ -33,7 +33,7 @@ macro_rules! get_index_harness {
             #[kani::unwind(9)]
             fn $name() {
                 let (o1, o2) = (OFF_R1, OFF_R2);
-                let mut t = mk_thread(vec![Instr::GetIndex(enc($m1, o1), enc($m2, o2)), Instr::Stop], vec![], vec![]);
+                let mut t = mk_thread(vec![norm(Instr::GetIndex(enc($m1, o1), enc($m2, o2))), Instr::Stop], vec![], vec![]);
                 let (arr, e, len) = sym_array(&mut t, 3);
                 let idx: i64 = kani::any();
                 push_frame(&mut t, ValueTag::Int);
@@ -66,7 +66,7 @@ macro_rules! set_index_harness {
             #[kani::unwind(9)]
             fn $name() {
                 let (o1, o2) = (OFF_R1, OFF_R2);
-                let mut t = mk_thread(vec![Instr::SetIndex(enc($m1, o1), enc($m2, o2)), Instr::Stop], vec![], vec![]);
+                let mut t = mk_thread(vec![norm(Instr::SetIndex(enc($m1, o1), enc($m2, o2))), Instr::Stop], vec![], vec![]);
                 let (arr, e, len) = sym_array(&mut t, 3);
                 let idx: i64 = kani::any();
                 let rv = sym_val(ValueTag::Int);
@@ -117,7 +117,7 @@ macro_rules! array_len_harness {
             #[kani::unwind(9)]
             fn $name() {
                 let (od, o1) = (OFF_DEST, OFF_R1);
-                let mut t = mk_thread(vec![Instr::ArrayLength(enc($dm, od), enc($m1, o1)), Instr::Stop], vec![], vec![]);
+                let mut t = mk_thread(vec![norm(Instr::ArrayLength(enc($dm, od), enc($m1, o1))), Instr::Stop], vec![], vec![]);
                 let len: usize = $len;
                 let (arr, _e) = fixed_array(&mut t, len, 4);
                 push_frame(&mut t, ValueTag::Int);
@@ -141,7 +141,7 @@ macro_rules! array_pop_harness {
             #[kani::unwind(9)]
             fn $name() {
                 let (od, o1) = (OFF_DEST, OFF_R1);
-                let mut t = mk_thread(vec![Instr::ArrayPop(enc($dm, od), enc($m1, o1)), Instr::Stop], vec![], vec![]);
+                let mut t = mk_thread(vec![norm(Instr::ArrayPop(enc($dm, od), enc($m1, o1))), Instr::Stop], vec![], vec![]);
                 let (arr, e) = fixed_array(&mut t, $len, 4);
                 push_frame(&mut t, ValueTag::Int);
                 if $m1 == O { t.value_stack[slot(o1)] = arr; } else { t.value_stack.push(arr); }
@@ -181,7 +181,7 @@ macro_rules! array_push_harness {
             #[kani::unwind(9)]
             fn $name() {
                 let (o1, o2) = (OFF_R1, OFF_R2);
-                let mut t = mk_thread(vec![Instr::ArrayPush(enc($m1, o1), enc($m2, o2)), Instr::Stop], vec![], vec![]);
+                let mut t = mk_thread(vec![norm(Instr::ArrayPush(enc($m1, o1), enc($m2, o2))), Instr::Stop], vec![], vec![]);
                 let (arr, e) = fixed_array(&mut t, $len, $cap);
                 let rv = sym_val(ValueTag::Int);
                 push_frame(&mut t, ValueTag::Int);
@@ -224,7 +224,7 @@ vm_harness! {
     #[kani::unwind(9)]
     fn c26_push_int_imm() {
         let c: [i64; 3] = kani::any();
-        let mut t = mk_thread(vec![Instr::ArrayPushIntImm(enc(T, 0), 2), Instr::Stop], vec![c[0], c[1], c[2]], vec![]);
+        let mut t = mk_thread(vec![norm(Instr::ArrayPushIntImm(enc(T, 0), 2)), Instr::Stop], vec![c[0], c[1], c[2]], vec![]);
         let (arr, e) = fixed_array(&mut t, 1, 4);
         push_frame(&mut t, ValueTag::Int);
         t.value_stack.push(arr);
@@ -247,7 +247,7 @@ macro_rules! construct_harness {
         vm_harness! {
             #[kani::unwind(9)]
             fn $name() {
-                let mut t = mk_thread(vec![Instr::$variant($n), Instr::Stop], vec![], vec![]);
+                let mut t = mk_thread(vec![norm(Instr::$variant($n)), Instr::Stop], vec![], vec![]);
                 push_frame(&mut t, ValueTag::Int);
                 let e: [u64; 3] = kani::any();
                 let mut k = 0;
@@ -291,7 +291,7 @@ vm_harness! {
     #[kani::unwind(9)]
     fn c01_make_closure_arity() {
         // MakeClosure(n) builds a struct of n + 1 fields (code address + n captures)
-        let mut t = mk_thread(vec![Instr::MakeClosure(2), Instr::Stop], vec![], vec![]);
+        let mut t = mk_thread(vec![norm(Instr::MakeClosure(2)), Instr::Stop], vec![], vec![]);
         push_frame(&mut t, ValueTag::Int);
         let e: [u64; 3] = kani::any();
         t.value_stack.push(Value(e[0], ValueTag::Int));
@@ -314,7 +314,7 @@ macro_rules! deconstruct_harness {
         vm_harness! {
             #[kani::unwind(9)]
             fn $name() {
-                let mut t = mk_thread(vec![Instr::$variant, Instr::Stop], vec![], vec![]);
+                let mut t = mk_thread(vec![norm(Instr::$variant), Instr::Stop], vec![], vec![]);
                 let e: [u64; 3] = kani::any();
                 let mut v: Vec<Value> = Vec::with_capacity(4);
                 let mut k = 0;
@@ -353,7 +353,7 @@ macro_rules! field_harness {
             #[kani::unwind(9)]
             fn $gname() {
                 let o = OFF_R1;
-                let mut t = mk_thread(vec![Instr::GetField($idx, enc($m, o)), Instr::Stop], vec![], vec![]);
+                let mut t = mk_thread(vec![norm(Instr::GetField($idx, enc($m, o))), Instr::Stop], vec![], vec![]);
                 let e: [u64; 3] = kani::any();
                 let s = StructObject::new(vec![Value(e[0], ValueTag::Int), Value(e[1], ValueTag::Float), Value(e[2], ValueTag::Int)], &mut t);
                 push_frame(&mut t, ValueTag::Int);
@@ -369,7 +369,7 @@ macro_rules! field_harness {
             #[kani::unwind(9)]
             fn $sname() {
                 let o = OFF_R1;
-                let mut t = mk_thread(vec![Instr::SetField($idx, enc($m, o)), Instr::Stop], vec![], vec![]);
+                let mut t = mk_thread(vec![norm(Instr::SetField($idx, enc($m, o))), Instr::Stop], vec![], vec![]);
                 let e: [u64; 3] = kani::any();
                 let s = StructObject::new(vec![Value(e[0], ValueTag::Int), Value(e[1], ValueTag::Int), Value(e[2], ValueTag::Int)], &mut t);
                 let rv = sym_val(ValueTag::Int);
@@ -406,7 +406,7 @@ vm_harness! {
     #[kani::unwind(9)]
     fn c01_variant_roundtrip() {
         let tag: u16 = 7;
-        let mut t = mk_thread(vec![Instr::ConstructVariant { tag }, Instr::DeconstructVariant, Instr::Stop], vec![], vec![]);
+        let mut t = mk_thread(vec![norm(Instr::ConstructVariant { tag }), norm(Instr::DeconstructVariant), Instr::Stop], vec![], vec![]);
         push_frame(&mut t, ValueTag::Int);
         let payload = sym_val(ValueTag::Int);
         t.value_stack.push(payload);
@@ -428,7 +428,7 @@ vm_harness! {
 vm_harness! {
     #[kani::unwind(9)]
     fn c01_deconstruct_variant_symbolic_tag() {
-        let mut t = mk_thread(vec![Instr::DeconstructVariant, Instr::Stop], vec![], vec![]);
+        let mut t = mk_thread(vec![norm(Instr::DeconstructVariant), Instr::Stop], vec![], vec![]);
         let tag: u16 = kani::any();
         let payload = sym_val(ValueTag::Float);
         let v = EnumObject::new(tag, payload, &mut t);
@@ -440,6 +440,88 @@ vm_harness! {
         assert!(t.value_stack[FRAME].0 == payload.0 && t.value_stack[FRAME].1 == ValueTag::Float);
         assert!(t.value_stack[FRAME + 1].1 == ValueTag::Int && t.value_stack[FRAME + 1].0 as i64 == tag as i64, "tag widened without sign change");
         kani::cover!(tag >= 0x8000, "req: tag with the high bit set");
+        std::mem::forget(t);
+    }
+}
+
+// ---- experiments (x_ prefix: not part of any check) ----
+vm_harness! {
+    #[kani::unwind(9)]
+    fn x_len3_nomodel() {
+        let mut t = mk_thread(vec![Instr::ArrayLength(enc(T, 0), enc(T, 0)), Instr::Stop], vec![], vec![]);
+        let (arr, _e) = fixed_array(&mut t, 3, 4);
+        push_frame(&mut t, ValueTag::Int);
+        t.value_stack.push(arr);
+        t.pc.0 = 0;
+        let cont = t.step();
+        assert!(cont && t.value_stack.len() == FRAME + 1 && t.value_stack[FRAME].0 == 3);
+        std::mem::forget(t);
+    }
+}
+vm_harness! {
+    #[kani::unwind(9)]
+    fn x_len3_symarr() {
+        let mut t = mk_thread(vec![Instr::ArrayLength(enc(T, 0), enc(T, 0)), Instr::Stop], vec![], vec![]);
+        let (arr, _e, len) = sym_array(&mut t, 3);
+        push_frame(&mut t, ValueTag::Int);
+        t.value_stack.push(arr);
+        t.pc.0 = 0;
+        let cont = t.step();
+        assert!(cont && t.value_stack.len() == FRAME + 1 && t.value_stack[FRAME].0 == len as u64);
+        std::mem::forget(t);
+    }
+}
+vm_harness! {
+    #[kani::unwind(9)]
+    fn x_len3_noframe() {
+        let mut t = mk_thread(vec![Instr::ArrayLength(enc(T, 0), enc(T, 0)), Instr::Stop], vec![], vec![]);
+        let (arr, _e) = fixed_array(&mut t, 3, 4);
+        t.value_stack.push(arr);
+        t.pc.0 = 0;
+        let cont = t.step();
+        assert!(cont && t.value_stack.len() == 1 && t.value_stack[0].0 == 3);
+        std::mem::forget(t);
+    }
+}
+vm_harness! {
+    #[kani::unwind(9)]
+    fn x_len3_vecmacro() {
+        let mut t = mk_thread(vec![Instr::ArrayLength(enc(T, 0), enc(T, 0)), Instr::Stop], vec![], vec![]);
+        let e: [u64; 3] = kani::any();
+        let arr = Value::from(ArrayObject::new(vec![Value(e[0], ValueTag::Int), Value(e[1], ValueTag::Int), Value(e[2], ValueTag::Int)], &mut t));
+        push_frame(&mut t, ValueTag::Int);
+        t.value_stack.push(arr);
+        t.pc.0 = 0;
+        let cont = t.step();
+        assert!(cont && t.value_stack.len() == FRAME + 1 && t.value_stack[FRAME].0 == 3);
+        std::mem::forget(t);
+    }
+}
+vm_harness! {
+    #[kani::unwind(9)]
+    fn x_len3_destoff() {
+        let mut t = mk_thread(vec![Instr::ArrayLength(enc(O, 1), enc(T, 0)), Instr::Stop], vec![], vec![]);
+        let (arr, _e) = fixed_array(&mut t, 3, 4);
+        push_frame(&mut t, ValueTag::Int);
+        t.value_stack.push(arr);
+        t.pc.0 = 0;
+        let cont = t.step();
+        assert!(cont && t.value_stack.len() == FRAME && t.value_stack[slot(1)].0 == 3);
+        std::mem::forget(t);
+    }
+}
+vm_harness! {
+    #[kani::unwind(9)]
+    fn x_len3_bigstack() {
+        // the operand stack has spare capacity, so pushing the result cannot reallocate
+        let mut t = mk_thread(vec![Instr::ArrayLength(enc(T, 0), enc(T, 0)), Instr::Stop], vec![], vec![]);
+        t.value_stack = Vec::with_capacity(16);
+        let (arr, _e) = fixed_array(&mut t, 3, 4);
+        push_frame(&mut t, ValueTag::Int);
+        t.value_stack.push(arr);
+        t.pc.0 = 0;
+        let cont = t.step();
+        assert!(cont && t.value_stack.len() == FRAME + 1 && t.value_stack[FRAME].0 == 3);
         std::mem::forget(t);
     }
 }
